@@ -4,10 +4,12 @@ FUNCTIONS = ['socket.Socket.close', 'async_socket.AsyncSocket.close', 'server.Se
              'async_server.AsyncServer.send_packet',
              'base_server.BaseServer._bad_request', 'base_server.BaseServer._method_not_found',
              'base_server.BaseServer._unauthorized', 'base_server.BaseServer._ok',
-             'server.Server._handle_connect']
-FUNCTIONS += ['server.Server.handle_request']
+             'server.Server._handle_connect', 'async_server.AsyncServer._handle_connect']
+FUNCTIONS += ['server.Server.handle_request', 'async_server.AsyncServer.handle_request',
+              'socket.Socket.handle_get_request',
+              'async_socket.AsyncSocket.handle_get_request', 'async_server.AsyncServer.disconnect']
 
 LEVEL_TEXT = 'response constructors produce one of the four status lines with (str,str) headers and a bytes body; send()/disconnect() never raise for any session state; blocking calls carry time credits: queue.join() is bounded only if nothing is unfinished (obligation bounded-block)'
 LEVEL_NOTE = 'handle_request itself (start_response exactly once) is verified in the thorough tier; ASGI event order not yet under contract'
-NOT_DECIDED = ['known finding KF-C15-close-wait-join (close(wait=True) joins a queue nobody drains)', 'ASGI gateway well-formedness', 'asyncio disconnect() with no sessions (asyncio.wait on an empty list) not yet under contract']
+NOT_DECIDED = ['known finding KF-C15-close-wait-join (close(wait=True) joins a queue nobody drains)', 'ASGI gateway well-formedness', 'asyncio disconnect(None) (asyncio.wait over concurrent close tasks; with no sessions asyncio.wait([]) raises ValueError) is outside the sequential model']
 ASSUMPTIONS = [LEVEL_NOTE]
